@@ -216,11 +216,11 @@ M('twin-packing-flipped-operands', 'twin', ['C01', 'C03', 'C04'], [],
 M('twin-packing-negated-temp', 'twin', ['C01', 'C03', 'C04'], [],
   [(DR, "            if (dirrecord_offset + dirrecord_len) > logical_block_size:", "            end_of_record = dirrecord_offset + dirrecord_len\n            if not end_of_record <= logical_block_size:")])
 M('udf-fid-block-step-late', 'fault', ['C01', 'C04', 'C05', 'C10'], ['SA-SIB.packing.udf'],
-  [(PY, "                if offset >= self.logical_block_size:\n                    current_extent += 1", "                if offset > self.logical_block_size:\n                    current_extent += 1")], '_udf_assign_extents')
+  [(PY, "                if offset >= self.logical_block_size:\n", "                if offset > self.logical_block_size:\n")], '_udf_assign_extents')
 M('udf-fid-tail-block-early', 'fault', ['C04', 'C05', 'C10'], ['SA-SIB.packing.udf'],
   [(PY, "            if offset > self.logical_block_size:\n                current_extent += 1", "            if offset >= self.logical_block_size:\n                current_extent += 1")], 'after')
 M('twin-udf-fid-flipped', 'twin', ['C04', 'C05', 'C10'], [],
-  [(PY, "                if offset >= self.logical_block_size:\n                    current_extent += 1", "                if not offset < self.logical_block_size:\n                    current_extent += 1")])
+  [(PY, "                if offset >= self.logical_block_size:\n", "                if not offset < self.logical_block_size:\n")])
 M('ce-gap-off-by-one', 'fault', ['C01', 'C02', 'C04', 'C08'], ['SA-FIT.ce_block'],
   [(RR, "                gapsize = entry.offset - lastend - 1\n", "                gapsize = entry.offset - lastend\n")], 'gapsize')
 M('ce-tail-allows-overflow', 'fault', ['C01', 'C02', 'C04', 'C08'], ['SA-FIT.ce_block'],
@@ -248,7 +248,7 @@ M('udf-remove-forgets-blocks-recorded', 'fault', ['C03', 'C04', 'C05', 'C10'], [
 M('udf-add-old-extents-from-cache', 'fault', ['C04', 'C05', 'C10'], ['SA-ACCT.delta'],
   [(UDF, "        if self.info_len > 0:\n            old_num_extents = utils.ceiling_div(self.info_len, logical_block_size)\n", "        if self.info_len > 0:\n            old_num_extents = self.log_block_recorded\n")], 'add_file_ident_desc')
 M('delta-of-joliet-child-dropped', 'fault', ['C04', 'C05'], ['SA-ACCT.dropped'],
-  [(PY, "            num_bytes_to_remove += self._remove_child_from_dr(joliet_child,\n                                                          joliet_child.index_in_parent)", "            self._remove_child_from_dr(joliet_child,\n                                       joliet_child.index_in_parent)")], '_rm_joliet_dir')
+  [(PY, "        num_bytes_to_remove += self._remove_child_from_dr(joliet_child,\n                                                          joliet_child.index_in_parent)", "        self._remove_child_from_dr(joliet_child,\n                                   joliet_child.index_in_parent)")], '_rm_joliet_dir')
 M('twin-acct-temp-for-unit', 'twin', ['C03', 'C04', 'C05', 'C10'], [],
   [(HVD, "        self.space_size -= utils.ceiling_div(removal_bytes, self.log_block_size)", "        removed_blocks = utils.ceiling_div(removal_bytes, self.log_block_size)\n        self.space_size -= removed_blocks")])
 M('eltorito-link-lists-inode-again', 'fault', ['C04', 'C07'], ['SA-FRESH.inodes'],
@@ -260,7 +260,7 @@ M('twin-eltorito-link-get', 'twin', ['C04', 'C07'], [],
 M('modify-in-place-mixes-records', 'fault', ['C02', 'C09', 'C17'], ['SA-COORD'],
   [(PY, "                abs_extent_loc = record.parent.extent_location() + record.extents_to_here - 1", "                abs_extent_loc = record.parent.extent_location() + child.extents_to_here - 1")], 'modify_file_in_place')
 M('remove-child-index-of-other-record', 'fault', ['C02', 'C09', 'C17'], ['SA-COORD'],
-  [(PY, "            num_bytes_to_remove += self._remove_child_from_dr(joliet_child,\n                                                          joliet_child.index_in_parent)", "            num_bytes_to_remove += self._remove_child_from_dr(joliet_child,\n                                                          child.index_in_parent)" )], '_rm_joliet_dir')
+  [(PY, "        num_bytes_to_remove += self._remove_child_from_dr(joliet_child,\n                                                          joliet_child.index_in_parent)", "        num_bytes_to_remove += self._remove_child_from_dr(joliet_child,\n                                                          joliet_child.parent.index_in_parent)" )], '_rm_joliet_dir')
 M('twin-coord-alias-free', 'twin', ['C02', 'C09', 'C17'], [],
   [(PY, "                offset = record.offset_to_here - record.dr_len\n", "                offset = -record.dr_len + record.offset_to_here\n")])
 M('xa-added-after-length-check', 'fault', ['C13'], ['SA-LENBOUND'],
@@ -278,9 +278,9 @@ M('efi-update-skipped-when-unmoved', 'fault', ['C06', 'C11', 'C12'], ['SA-RESHUF
 M('twin-mac-update-skipped-when-unmoved', 'twin', ['C06', 'C11', 'C12'], [],
   [(ISOH, "        self.mac_lba = current_extent\n        self.mac_count = sector_count\n", "        if current_extent == self.mac_lba and sector_count == self.mac_count:\n            return\n\n        self.mac_lba = current_extent\n        self.mac_count = sector_count\n")])
 M('second-section-skips-finish', 'fault', ['C06', 'C11', 'C12'], ['SA-RESHUFFLE.flag'],
-  [(PY, "            self.eltorito_boot_catalog.add_section(bootfile_dirrecord.inode,\n", "            if False:\n                self._finish_add(0, 0)\n            self.eltorito_boot_catalog.add_section(bootfile_dirrecord.inode,\n")], '')
+  [(PY, "                                             udf_bootcatfile, None, True)\n\n        self._finish_add(0, num_bytes_to_add)\n", "                                             udf_bootcatfile, None, True)\n\n            self._finish_add(0, num_bytes_to_add)\n")], 'add_eltorito')
 M('edit-reads-ce-block-extent', 'fault', ['C06'], ['SA-RESHUFFLE.isolation'],
-  [(HVD, "        for index, block in enumerate(self.rr_ce_blocks):\n            offset = block.add_entry(length)\n", "        for index, block in enumerate(self.rr_ce_blocks):\n            if block.extent_location() < 0:\n                continue\n            offset = block.add_entry(length)\n")], 'add_rr_ce_entry')
+  [(HVD, "        for block in self.rr_ce_blocks:\n            offset = block.add_entry(length)\n", "        for block in self.rr_ce_blocks:\n            if block.extent_location() == 0:\n                continue\n            offset = block.add_entry(length)\n")], 'add_rr_ce_entry')
 M('pass-accumulates', 'fault', ['C06'], ['SA-RESHUFFLE.pure'],
   [(ISOH, "        self.efi_lba = current_extent\n", "        self.efi_lba += current_extent\n")], 'update_efi')
 
@@ -312,6 +312,15 @@ M('coordinate-refresh-index-conditional', 'fault', ['C02', 'C07', 'C17'], ['SA-C
   [(DR, "            c.index_in_parent = i\n", "            if c.index_in_parent < 0:\n                c.index_in_parent = i\n")], '_recalculate_extents_and_offsets')
 M('twin-coordinate-refresh-enumerate', 'twin', ['C02', 'C07', 'C17'], [],
   [(DR, "            c.offset_to_here = dirrecord_offset\n            c.index_in_parent = i\n", "            c.index_in_parent = i\n            c.offset_to_here = dirrecord_offset\n")])
+
+M('udf-file-entry-wrong-tag-ident', 'fault', ['C05', 'C10'], ['SA-TAG'],
+  [(UDF, "        self.desc_tag.new(261)  # FIXME: let the user set serial_number", "        self.desc_tag.new(266)  # FIXME: let the user set serial_number")], 'UDFFileEntry')
+M('udf-fid-crc-over-wrong-bytes', 'fault', ['C05', 'C10'], ['SA-TAG'],
+  [(UDF, "        return self.desc_tag.record(rec[16:]) + rec[16:]\n", "        return self.desc_tag.record(rec) + rec[16:]\n")], 'UDFFileIdentifierDescriptor|record')
+M('udf-file-entry-tag-does-not-move', 'fault', ['C05', 'C10'], ['SA-TAG'],
+  [(UDF, "            raise pycdlibexception.PyCdlibInternalError('UDF File Entry not initialized')\n\n        self.new_extent_loc = new_location\n        self.desc_tag.tag_location = tag_location\n", "            raise pycdlibexception.PyCdlibInternalError('UDF File Entry not initialized')\n\n        self.new_extent_loc = new_location\n")], 'moves')
+M('twin-udf-record-temp', 'twin', ['C05', 'C10'], [],
+  [(UDF, "                          self.reserve_vd.record(), b'\\x00' * 480)[16:]\n\n        return self.desc_tag.record(rec) + rec\n", "                          self.reserve_vd.record(), b'\\x00' * 480)[16:]\n\n        body = rec\n        return self.desc_tag.record(body) + body\n")])
 
 
 def applicable(m, sources):
